@@ -256,7 +256,14 @@ class SpecGen:
         elif dtype == "bool":
             c = r.choice([{"name": "isin", "kw": {"allowed_values": [True, False]}}, {"name": "eq", "kw": {"value": True}}])
         else:
-            c = r.choice([{"name": "ge", "kw": {"min_value": "2000-01-01"}}, {"name": "lt", "kw": {"max_value": "2100-01-01"}}])
+            # {"$ts": ...} stands for a pandas.Timestamp (JSON cannot hold one): statistics that are live datetime objects,
+            # which serialisers have to convert, are a different code path from plain strings
+            c = r.choice([{"name": "ge", "kw": {"min_value": "2000-01-01"}}, {"name": "lt", "kw": {"max_value": "2100-01-01"}},
+                          {"name": "ge", "kw": {"min_value": {"$ts": "1990-01-01"}}},
+                          {"name": "in_range", "kw": {"min_value": {"$ts": "1990-01-01"}, "max_value": {"$ts": "2100-01-01"}}},
+                          {"name": "isin", "kw": {"allowed_values": [{"$ts": "2020-01-01"}, {"$ts": "2021-06-15"}, {"$ts": "1999-12-31"},
+                                                                      {"$ts": "2030-02-02"}]}},
+                          {"name": "notin", "kw": {"forbidden_values": [{"$ts": "1980-05-05"}]}}])
         c = dict(c)
         c["t"] = "builtin"
         c["opts"] = self.opts()
@@ -516,7 +523,7 @@ def _dedupe(vals, dtype):
 def build_check(c, backend):
     opts = dict(c.get("opts", {}))
     if c["t"] == "builtin":
-        kw = dict(c["kw"])
+        kw = {k: _unmarshal(v) for k, v in c["kw"].items()}
         return getattr(pa.Check, c["name"])(**kw, **opts)
     kind = c["cb"]
     fn = make_pl_check_fn(kind, c["site"]) if kind.startswith("pl_") else make_check_fn(kind, c["site"])
@@ -530,6 +537,14 @@ def build_check(c, backend):
     if "groupby_fn" in c:
         chk._verif_gsite = c["groupby_fn"]["site"]
     return chk
+
+
+def _unmarshal(v):
+    if isinstance(v, dict) and "$ts" in v:
+        return pd.Timestamp(v["$ts"])
+    if isinstance(v, list):
+        return [_unmarshal(x) for x in v]
+    return v
 
 
 def build_parser(p):
@@ -592,7 +607,7 @@ def build_model(spec):
                 # Field(ge=..) style built-ins
                 arg = {"ge": "ge", "gt": "gt", "le": "le", "lt": "lt", "isin": "isin", "notin": "notin", "ne": "ne", "eq": "eq"}.get(chk["name"])
                 if arg and arg not in fkw and len(chk["kw"]) == 1:
-                    fkw[arg] = list(chk["kw"].values())[0]
+                    fkw[arg] = _unmarshal(list(chk["kw"].values())[0])
         if c["default"] is not None:
             fkw["default"] = c["default"]
         ns[c["name"]] = mod.Field(**fkw)
